@@ -2,7 +2,7 @@
 # run every stored seed (/verif/seeded/Cxx-k/patch.diff) against its property's quick check;
 # results appended to build/seedruns/summary.txt (seeds already listed there are skipped)
 mkdir -p /verif/build/seedruns
-for d in /verif/seeded/C*-*; do
+for d in /verif/seeded/C*-${SEED_GLOB:-*}; do
   name=$(basename $d); p=${name%%-*}
   [ -f $d/patch.diff ] || continue
   grep -q "^$name " /verif/build/seedruns/summary.txt 2>/dev/null && continue
